@@ -6,7 +6,7 @@ import z3
 
 from . import extract
 from .types import *  # noqa: F401,F403
-from .types import (NULL, Ref, TBag, TMap, TRef, TSeq, TSet, Ty, V, VBag, VBool, VMap, VRef, VSeq, VSet,
+from .types import (NULL, Ref, TBag, TMap, TRef, TSeq, TSet, Ty, V, VBag, VBool, VMap, VOpaque, VRef, VSeq, VSet,
                     clsof, fresh_name)
 
 
@@ -317,6 +317,10 @@ class EngineBase:
 
     def write_field(self, p: Path, ref: VRef, fname: str, val: V):
         key, ty = self.heap_key(ref.cls, fname)
+        if isinstance(val, VOpaque):
+            # an unmodelled value stored into a typed slot: the slot now holds an arbitrary value of its type
+            val = ty.fresh("opq_" + fname)
+            self.assume_typed(p, val)
         val = coerce(val, ty)
         arrs = self.heap_arrays(p, key, ty)
         p.heap[key] = [z3.Store(a, ref.z, c) for a, c in zip(arrs, val.comps())]
